@@ -1372,11 +1372,11 @@ def run(rep, tier, seed, parts=None):
         "frequency) compared with the plain-loop reference. Every parameter set is distinct by construction; sets counted as "
         "non-trivial exclude the mixed scalar/DataArray repeats.")
     rep.assumptions = [
-        "closed forms: the documented formulas with g = 9.80665 (scipy.constants.g); tolerance 1e-9 relative with a floor of 1e-12 of the spectrum's peak (underflow region is don't-care)",
+        "closed-form clauses (auxiliary: they pin the documented formulas so that the statement's equalities are not satisfied by a wrong shape, and make the scalar/DataArray paths comparable): the documented formulas with g = 9.80665 (scipy.constants.g); tolerance 1e-9 relative with a floor of 1e-12 of the spectrum's peak (underflow region is don't-care)",
         "tma deep-water clause uses the derived bound 1-phi <= 4 e^-2x (1+x)/(1-e^-4x), x = 0.99 w^2 depth/9.81 (doubled after rescaling to hs); it is evaluated where the bound is <= 0.1",
-        "tma depth-factor clause (auxiliary, from the docstring reference Bouws et al. 1985): ratio to jonswap equals the Kitaigorodskii factor with the exact wavenumber within 3e-3 (6e-3 after rescaling), the accuracy of the Chen & Thomson wavenumber times the log-sensitivity of phi",
+        "tma closed-form / depth-factor clauses (auxiliary, from the docstring reference Bouws et al. 1985): ratio to jonswap equals the Kitaigorodskii factor with the exact wavenumber within 3e-3 (6e-3 after rescaling), the accuracy of the Chen & Thomson wavenumber times the log-sensitivity of phi",
         "measured dm accepts the frequency-summed or the df-weighted moment convention, consistently over a batch (C01)",
-        "dm/dspr == requested only for frequency independent cartwright (and asymmetric with dm == dpm, dspr == dpspr) without under_90 on grids with dd <= dspr/2; tolerance 2e-3 relative / 0.01 deg is the quadrature error of the cos^2s on those grids",
+        "dm/dspr == requested only for frequency independent cartwright (and asymmetric with dm == dpm, dspr == dpspr) without under_90 on grids with dd <= dspr/2 (coarser grids are out of domain); the tolerance is the rigorous aliasing bound of the nd-point quadrature of cos^2s derived from its Fourier coefficients c_k/c_{k-1} = (s-k+1)/(s+k) (alias_bounds; worst admissible case nd=12, dspr=60: 0.0131 deg and 7.2e-4 relative) - DESIGN's 0.01 deg / 2e-3 were measured at dm=0.5 only and are exceeded by the discretisation itself at other positions of dm between nodes (0.0117 deg at dm=7.3)",
         "for the general asymmetric spreading only non-negativity, normalisation, oned == shape, hs and the documented limiter formulas are checked: the statement does not define its 'requested' overall direction",
         "under_90: a direction exactly 90 deg from dm may be kept or dropped (tie)",
     ]
